@@ -82,3 +82,18 @@ Example C13_crash_prefix_nonvacuous :
   f_main (run_fs (mkFs (Some (hx "ff"%string)) None) [OCreateTmp; OWrite (hx "0102"%string)]) = Some (hx "ff"%string) /\
   f_main (run_fs (mkFs (Some (hx "ff"%string)) None) (persist_ops [hx "0102"%string; hx "03"%string])) = Some (hx "010203"%string).
 Proof. repeat split. Qed.
+
+(* The tie of the gob premise to the source: the struct fields gob persists, regenerated with
+   go/types from app.ShutterApp on this run (Generated/AppSchema.v), are exactly the fields the
+   image of the model has a component for, none of them is unexported (gob drops unexported
+   fields silently - a restarted node would continue from a different state), and the only
+   foreign leaf types are ones that carry their own encoding. *)
+From Verif Require Import Generated.AppSchema Proofs.AppSchema.
+Theorem C13_translated_schema_is_the_models :
+  map struct_field gen_persisted_fields = map fst model_schema /\
+  forallb (fun f => snd f) gen_persisted_fields = true /\
+  gen_leaf_types = ["common.Address"; "time.Time"]%string.
+Proof.
+  split; [exact schema_is_the_models|]. split; [exact no_unexported_field|exact leaves_carry_their_own_encoding].
+Qed.
+Print Assumptions C13_translated_schema_is_the_models.
